@@ -38,26 +38,26 @@ var zzGFuncode = &compile.Funcode{Name: "f"}
 func zzGShapes(n int) [][][]int {
 	if n == 3 {
 		return [][][]int{
-			{{1}, {2}, {}},     // chain
-			{{1, 2}, {}, {}},   // fan
-			{{1}, {2}, {0}},    // 3-cycle
-			{{0, 1}, {}, {1}},  // self loop; node 2 unreachable but points into the graph
-			{{1}, {2}, {1}},    // back edge below the root
-			{{1, 2}, {2}, {}},  // shared child
-			{{1}, {1, 2}, {}},  // self loop below the root
+			{{1}, {2}, {}},    // chain
+			{{1, 2}, {}, {}},  // fan
+			{{1}, {2}, {0}},   // 3-cycle
+			{{0, 1}, {}, {1}}, // self loop; node 2 unreachable but points into the graph
+			{{1}, {2}, {1}},   // back edge below the root
+			{{1, 2}, {2}, {}}, // shared child
+			{{1}, {1, 2}, {}}, // self loop below the root
 		}
 	}
 	return [][][]int{
-		{{1}, {2}, {3}, {}},        // chain
-		{{1, 2, 3}, {}, {}, {}},    // fan
-		{{1, 2}, {3}, {3}, {}},     // diamond
-		{{1}, {2}, {0, 3}, {}},     // 3-cycle with a tail
-		{{0, 1}, {2}, {}, {1}},     // self loop; node 3 unreachable, points into the graph
-		{{1}, {2}, {1, 3}, {}},     // back edge below the root
-		{{1}, {2, 3}, {}, {}},      // tree
-		{{1}, {}, {3}, {1}},        // two unreachable nodes
-		{{1}, {2}, {3}, {0}},       // 4-cycle
-		{{1, 3}, {2}, {1}, {2}},    // two entries into a 2-cycle
+		{{1}, {2}, {3}, {}},     // chain
+		{{1, 2, 3}, {}, {}, {}}, // fan
+		{{1, 2}, {3}, {3}, {}},  // diamond
+		{{1}, {2}, {0, 3}, {}},  // 3-cycle with a tail
+		{{0, 1}, {2}, {}, {1}},  // self loop; node 3 unreachable, points into the graph
+		{{1}, {2}, {1, 3}, {}},  // back edge below the root
+		{{1}, {2, 3}, {}, {}},   // tree
+		{{1}, {}, {3}, {1}},     // two unreachable nodes
+		{{1}, {2}, {3}, {0}},    // 4-cycle
+		{{1, 3}, {2}, {1}, {2}}, // two entries into a 2-cycle
 	}
 }
 
